@@ -102,8 +102,8 @@ func c20Check(c C20Case) (r evid.Result) {
 		name := refKeyToLabel(k)
 		r.NonTrivial = c20NonTrivialKey(k)
 		d := &fakedocker.Daemon{}
-		line := []dl.Line{{TS: c20BaseTS, Msg: "hello"}}
-		d.Containers = append(d.Containers, dl.Ctr("id0", "c0", map[string]string{k: c.Value}, line))
+		lineOf := func(id string) []dl.Line { return []dl.Line{{TS: c20BaseTS, Msg: "hello from <" + id + ">"}} }
+		d.Containers = append(d.Containers, dl.Ctr("id0", "c0", map[string]string{k: c.Value}, lineOf("id0")))
 		want := map[string]bool{"id0": true}
 		for i, other := range c.Other {
 			labels := map[string]string{}
@@ -113,7 +113,7 @@ func c20Check(c C20Case) (r evid.Result) {
 				san[refKeyToLabel(string(ok))] = string(ov)
 			}
 			id := fmt.Sprintf("id%d", i+1)
-			d.Containers = append(d.Containers, dl.Ctr(id, fmt.Sprintf("c%d", i+1), labels, line))
+			d.Containers = append(d.Containers, dl.Ctr(id, fmt.Sprintf("c%d", i+1), labels, lineOf(id)))
 			// C20 only states that a container carrying k=v is selected; whether
 			// containers without the label are selected is C02's subject.
 			if v, ok := san[name]; ok && v == c.Value {
@@ -146,8 +146,10 @@ func c20Check(c C20Case) (r evid.Result) {
 		}
 		seen := map[string]bool{}
 		for _, e := range canon.Flatten(streams) {
-			seen[e.Labels["container_id"]] = true
-			if e.Labels["container_id"] == "id0" && e.Labels[name] != c.Value {
+			// The origin is read from the line: a Docker label may legitimately shadow container_id.
+			origin := strings.TrimSuffix(e.Line[strings.Index(e.Line, "<")+1:], ">")
+			seen[origin] = true
+			if origin == "id0" && e.Labels[name] != c.Value {
 				r.Violation = evid.Viol("C20/select-label-missing", "entry of container id0 carries %s=%q, want %q", name, e.Labels[name], c.Value)
 				return r
 			}
@@ -228,10 +230,14 @@ func c20Gen(t *rapid.T) C20Case {
 		var k string
 		for i := 0; ; i++ {
 			k = c20GenKey(t, 10, false)
+			if rapid.IntRange(0, 7).Draw(t, "builtin-image") == 0 {
+				// A Docker label whose sanitised name is one of the labels derived from the
+				// container's metadata: the statement makes no exception for it.
+				k = rapid.SampledFrom([]string{"container.name", "container-id", "container/image", "container state", "container.image.id", "container_name", "container.status", "container command", "container"}).Draw(t, "builtin-key")
+			}
 			name := refKeyToLabel(k)
-			// Soundness: names that cannot be written in a selector or that shadow a
-			// built-in label are outside the statement.
-			if !logqlKeywords[name] && !builtinContainerLabels[name] {
+			// Soundness: names that cannot be written in a selector are outside the statement.
+			if !logqlKeywords[name] && name != "msg" {
 				break
 			}
 		}
